@@ -375,3 +375,32 @@ fn c17_sx127x_do_rx_symbol_timeout() {
     kani::cover!(res.is_ok() && single && n > 100, "verif-reached: single");
     kani::cover!(res.is_ok() && !single, "verif-reached: continuous");
 }
+
+// ------------------------------------------------------------------------------------------------ C14/C17: nothing survives a reset
+// History obligation on the REAL driver (the C14 harnesses of phy_lora.rs run LoRa against the abstract chip and assume
+// that RadioKind::set_channel programmes the chip): channel f0, then optionally a hardware reset (LoRa::init / recovery), then
+// channel f.  Register-file contract with the reset model of phy_common: afterwards the chip's RegFrf holds the word of f --
+// also when f == f0, where a driver that remembers "already programmed" across the reset would leave the chip on its 434 MHz
+// power-on frequency.  The PLL conversion is an uninterpreted function (same argument, same word).
+fn stub_freq_to_pll_step_uf(freq_in_hz: u32) -> u32 { uf_apply(freq_in_hz) & 0x00ff_ffff }
+// @verif props=C14,C17 obligation=Sx127x::set_channel.history[channel; reset?; channel] label=proved-complete tier=quick bound="any two frequencies (equal or not), with and without a hardware reset in between, arbitrary prior register file"
+#[kani::proof]
+#[kani::unwind(130)]
+#[kani::stub(freq_to_pll_step, stub_freq_to_pll_step_uf)]
+fn c14_sx127x_channel_after_reset() {
+    tape::init();
+    unsafe { REGS.on = true; let v = tape::u8(); let mut i = 0; while i < 128 { REGS.r[i] = v; i += 1; } REGS.r[0x06] = tape::u8(); REGS.r[0x07] = tape::u8(); REGS.r[0x08] = tape::u8(); }
+    let mut r = Sx127x::new(MockSpi, MockIv, Config { chip: Sx1276, tcxo_used: false, tx_boost: false, rx_boost: false });
+    let (f0, f) = (tape::u32(), tape::u32());
+    let first = r.set_channel(f0);
+    let with_reset = tape::boolean();
+    if with_reset { let _ = r.reset(&mut MockDelay); }
+    let res = r.set_channel(f);
+    if first.is_ok() && res.is_ok() {
+        let regs = unsafe { &*(&raw const REGS) };
+        let in_chip = ((regs.r[0x06] as u32) << 16) | ((regs.r[0x07] as u32) << 8) | regs.r[0x08] as u32;
+        assert!(in_chip == uf_apply(f) & 0x00ff_ffff, "C14/C17 after set_channel(f) the chip's RegFrf holds the word of f -- whatever was programmed before, and also right after a reset");
+    }
+    kani::cover!(first.is_ok() && res.is_ok() && with_reset && f == f0, "verif-reached: same channel again after a reset");
+    kani::cover!(first.is_ok() && res.is_ok() && !with_reset && f != f0, "verif-reached: channel change");
+}
